@@ -103,3 +103,7 @@ Definition pairwise_aggregation (Sx : list Z) (y0 : list Z) : option (list Z * l
   let m0 := fold_left (fun m i => mm_insert m (get deg i) i) (zr 0 n) [] in
   pw_loop (S (Z.to_nat n)) Sx (fillz n 0) y0 m0 1.
 End Agg.
+
+(* the Python driver pairwise_aggregation multiplies the 0/1 matrices of successive matchings (T = T @ T_temp, one entry per row):
+   the product is the composition of the id maps (ids 1-based as the kernel leaves them) *)
+Definition compose (x1 x2 : list Z) : list Z := map (fun a => get x2 (a - 1)) x1.
